@@ -7,6 +7,8 @@ pub type ActorIdx = u32;
 /// actor index used for instances created by `Default::default()` of service type A / B
 pub const AIDX_SVC_A: ActorIdx = 1000;
 pub const AIDX_SVC_B: ActorIdx = 1001;
+/// client id of the setup program
+pub const SETUP_CLIENT: u32 = 1000;
 
 #[derive(Clone, Copy, Debug, PartialEq, Eq, Hash, Serialize, Deserialize, PartialOrd, Ord)]
 pub enum Tag {
@@ -338,6 +340,10 @@ pub struct Scenario {
     /// default spec used by `Default::default()` of the two service types (and of Plain for recreate)
     pub svc_a: ActorSpec,
     pub svc_b: ActorSpec,
+    /// run to completion by a setup task before the clients start; what it `Give`s is waiting
+    /// for the clients' `Take`
+    #[serde(default)]
+    pub setup: Vec<Op>,
     pub clients: Vec<ClientSpec>,
     pub faults: Vec<Fault>,
     pub sched: SchedSpec,
@@ -353,6 +359,7 @@ impl Scenario {
             actors: vec![],
             svc_a: ActorSpec { tag: Tag::SvcA, ..Default::default() },
             svc_b: ActorSpec { tag: Tag::SvcB, ..Default::default() },
+            setup: vec![],
             clients: vec![],
             faults: vec![],
             sched: SchedSpec {
